@@ -10,16 +10,21 @@ import common
 from common import sx, q, jq, cname, cnum, ok
 from units import U, BLOCK
 import props.c01 as c01
+import props.c02 as c02
 import props.c05 as c05
 
 ID = 'C17'
 LEVEL = 'proof'
 # the monotonicity of the rank scorers GENERATED from rankscore.py is an obligation while the translator accepts the source
 GEN_TIES = {'Rankscore': 'Props/GenTie_Rankscore_mono.v'}
-TIE = {'HighestAverages.evaluate': 'correspondence (stream ha-tie, model shared with C01)',
+TIE = {'HighestAverages.evaluate': 'correspondence (streams ha-tie and ha-mono-pairs, model shared with C01)',
        'component/divisor.py': 'translator (GenTie_Divisor.v, obligation of C01) + strictness lemmas Props/C17.v C17_builtin_strict',
        'component/rankscore.py': 'translator (GenTie_Rankscore.v, obligation of C13: all six scorers of Model/Convert.v rank_scores)',
        'convert.* additive folds, core.get_n_best': 'models shared with C13 / C09 (correspondence there); relational clauses on the implementation here',
+       'convert.RankedToPositionalVotes.convert (shared ranks)': 'correspondence (stream pos-tie against Model/Convert.v img_positional, unit C13 convert; theorems '
+                                                                 'C17_positional_shared / _leave_shared / _leave_pair / _rank_unranked / _added)',
+       'LargestRemainder.evaluate': 'model of C02 (Model/QuotaDistributor.v, correspondence there); here: stream lr-hare-votes (the perturbed election against the model, spec = C17_lr_hare_votes) '
+                                    'and the two elections of each paradox witness (corpus lr-*.json)',
        'condorcet.Copeland/MinimaxCondorcet/Schulze': 'models of C05 (Model/Condorcet.v, correspondence there); relational clauses on the implementation here',
        'convert.RankedToCondorcetVotes.convert': 'correspondence (stream rc-tie against Model/Hybrids.v pairwise, unit C05+2; theorems C17_ballot_pairwise_exact, '
                                                  'C17_ballot_raises, C17_copeland_ballots, C17_minimax_ballots) + the exact delta evaluated on the implementation (stream rc-move-exact)',
@@ -28,9 +33,15 @@ TIE = {'HighestAverages.evaluate': 'correspondence (stream ha-tie, model shared 
        'sequential.PreferenceAddition.evaluate (+ _decouple_equal_rankings, _add_round_votes, Tie.reconcile)':
            'correspondence (streams pa-exhaustive-small, pa-random against Model/Bucklin.v; theorems C17_bucklin, C17_oklahoma, C17_preference_addition*)'}
 RULE = ('ha-tie: C01 generators (random, constructed quotient ties, zero-vote/caps) against the model. house: every such case and the '
-        'exhaustive small domain (<=3 parties, votes 0..3, n 1..4, 5 divisors) evaluated at n and n+1 on the implementation: no party\'s '
-        'definite seats drop; members of a reported tie are not worse off. votes: one party gets +1 / +10% / x2 / +1e30 votes, the others keep '
-        'theirs: its seats do not drop whenever the second result is tie-free. sole-winner: random ranked / approval / score profiles '
+        'exhaustive small domain (<=3 parties, votes 0..3, n 1..4, 5 divisors) evaluated at n and n+1 on the implementation, judged by the statement of '
+        'C17_house_exact: no party\'s sure seats drop; a tie Tie(T, r) at n is kept as Tie(T, r+1) with the same sure seats or resolved into one more '
+        'seat for every member. votes: one party gets +1 / +10% / x2 / +1e30 / +1/3 votes (also from zero; exhaustive small domain: every party +1), '
+        'the others keep theirs, judged by C17_votes_full: its sure seats and its possible total (tie seat included) do not drop, whatever way either '
+        'run ends. ha-mono-pairs: the perturbed election (n+1 / more votes) against the model, spec = the same two clauses against the base election. '
+        'sole-winner-positional-shared: 7 rank scorers, profiles with shared ranks: the sole winner moves up past plain / shared ranks, leaves a shared '
+        'rank, gets ranked when unranked, a ballot with it on top (shared ranks below) is added; pos-tie: the converter against the model on those '
+        'profiles. rc-rank-added-exact: ranking an unranked candidate / adding a ballot changes the pairwise dictionary exactly as C17_ballot_rank_exact / '
+        'C17_ballot_added_exact say; sole Copeland / minimax winner stays where proved (bullet: all; longer ballot: minimax margins / opposition). sole-winner: random ranked / approval / score profiles '
         '(3..5 candidates, 2..7 ballot types, truncation), every rule of the property; whenever evaluate(votes, 1) == [w], every single-ballot '
         'upward move of w (one place up, to the top; approve w; raise w\'s score) and every added ballot ranking w first (a bullet vote for all rules; '
         'also longer ballots for the additive rules and Oklahoma) must again give [w]. pa-*: PreferenceAddition.evaluate against the model on random / small exhaustive '
@@ -48,11 +59,19 @@ PARTIAL = ['Schulze sole-winner monotonicity: REFUTED for votelib\'s ranking by 
            'C17_oklahoma_leave_shared, C17_preference_addition_leave_shared / _leave_pair); refuted for the loop as written: C17_bucklin_shared_refuted, finding C17-bucklin-splice-offset (fixed). '
            'Other single-ballot improvements of a ballot with shared ranks (e.g. several steps at once that are not a chain of these) fall under C17_preference_addition_split_general per case',
            'Bucklin with a new ballot that ranks further candidates below the winner: refuted (C17_bucklin_added_full_refuted, the participation failure of Bucklin); proved for the bullet vote and for any such ballot under Oklahoma',
-           'vote monotonicity with zero-vote parties or when the larger run ends in a tie or with caps exhausted: relational checker only',
+           'highest averages: both clauses proved in full (C17_house_exact / C17_house_tie, C17_votes_full: non-strict divisors, zero votes, caps, ties in either run); '
+           'hypotheses: divisor positive and non-decreasing on seat counts >= 0, votes >= 0, previous gains >= 0, the party present in both vote vectors',
+           'largest remainder is not claimed by the property: Alabama paradox and the loss of a seat after gaining a vote under a rounded quota are kernel-checked on the '
+           'model (C17_lr_house_refuted, C17_lr_votes_droop_refuted) and replayed; vote monotonicity under the exact Hare quota (no caps, no previous gains) is proved: C17_lr_hare_votes',
            'positional rules: proved for every built-in scorer that is non-increasing along the ballot - all of Borda, Dowdall, modified Borda, fixed top; Geometric with base >= 1; '
-           'SequenceBased with a non-increasing sequence ending non-negative (C17_scorer_ok, C17_positional_any); refuted otherwise (C17_scorers_conditions_needed); ballots of plain ranks',
+           'SequenceBased with a non-increasing sequence ending non-negative (C17_scorer_ok, C17_positional_any); refuted otherwise (C17_scorers_conditions_needed); '
+           'changed ballots with shared ranks: C17_positional_shared / _leave_shared / _leave_pair; an unranked winner ranked and an added ballot need non-negative scores '
+           '(C17_positional_rank_unranked, C17_positional_added; Borda with a negative base refuted: C17_positional_negative_refuted)',
            'Copeland / minimax on ballots: proved through the converter model for a winner moving up from a rank of its own or out of a shared rank (C17_copeland_ballots, C17_minimax_ballots, '
-           'C17_copeland_ballots_leave, C17_minimax_ballots_leave; unranked_at_bottom=True, the default); an ADDED ballot and an unranked winner being ranked are checker-decided']
+           'C17_copeland_ballots_leave, C17_minimax_ballots_leave; unranked_at_bottom=True, the default), an unranked winner being ranked (C17_copeland_ballots_rank, '
+           'C17_minimax_ballots_rank), an added bullet vote (C17_*_ballots_added_bullet), any added ballot with the winner alone on top for minimax margins / pairwise opposition '
+           '(C17_minimax_ballots_added); REFUTED for a longer added ballot under Copeland and minimax winning votes (C17_copeland_added_long_refuted, '
+           'C17_minimax_winvotes_added_long_refuted: participation failures of the methods, like Bucklin); unranked_at_bottom=False is not modelled']
 TRUSTED = []
 ASSUMPTIONS = ['a "single ballot" is one unit of weight of one ballot type of the profile dictionary']
 
@@ -79,6 +98,41 @@ def ha_eval(c, n=None, votes=None):
     return seats, tie
 
 
+def house_clause(n, ra, rb):
+    """C17_house / C17_house_exact on two results (seats, tie) for n and n + 1 seats -> None or the reason it fails.
+    No tie at n: nobody's sure seats drop.  Tie(T, r) at n: the larger house has the same sure seats and reports Tie(T, r + 1), or
+    (r + 1 = |T|) gives every member of T one more sure seat and reports no tie."""
+    (sa, ta), (sb, tb) = ra, rb
+    for p, s in sa.items():
+        if sb.get(p, 0) < s:
+            return 'party %d: %d seats in a house of %d, %d in a house of %d' % (p, s, n, sb.get(p, 0), n + 1)
+    if ta:
+        T, r = sorted(ta[0]), ta[1]
+        if tb:
+            if sorted(tb[0]) != T or tb[1] != r + 1 or sb != sa:
+                return 'Tie(%s, %d) in a house of %d became %s with sure seats %s -> %s (expected the same tie with %d seats)' % (T, r, n, tb, sa, sb, r + 1)
+        else:
+            exp = dict(sa)
+            for p in T:
+                exp[p] = exp.get(p, 0) + 1
+            if len(T) != r + 1 or sb != exp:
+                return 'Tie(%s, %d) in a house of %d was resolved to %s (expected every member one more seat: %s)' % (T, r, n, sb, exp)
+    return None
+
+
+def votes_clause(p, ra, rb):
+    """C17_votes_full on two results (seats, tie), party p has gained votes in the second: (i) its sure seats do not drop,
+    (ii) its possible total (sure seats + the seat it may get out of a reported tie) does not drop - whatever way either run ends."""
+    (sa, ta), (sb, tb) = ra, rb
+    pa = 1 if ta and p in ta[0] else 0
+    pb = 1 if tb and p in tb[0] else 0
+    if sb.get(p, 0) < sa.get(p, 0):
+        return 'party %d holds %d seats for certain, %d after gaining votes' % (p, sa.get(p, 0), sb.get(p, 0))
+    if sb.get(p, 0) + pb < sa.get(p, 0) + pa:
+        return 'party %d can reach %d seats (tie included), only %d after gaining votes' % (p, sa.get(p, 0) + pa, sb.get(p, 0) + pb)
+    return None
+
+
 def house_checks(ctx, stream, cases):
     bad = 0
     cases = list(cases)
@@ -97,21 +151,19 @@ def house_checks(ctx, stream, cases):
             ctx.nontrivial.add(common.case_hash(c))
         if ta:
             ctx.dist['house:tie-at-n'] += 1
-        why = None
-        for p, s in sa.items():
-            if sb.get(p, 0) < s:
-                why = 'party %d: %d seats in a house of %d, %d in a house of %d' % (p, s, c['n'], sb.get(p, 0), c['n'] + 1)
-        if not why and ta:
-            for p in ta[0]:
-                if sb.get(p, 0) + (1 if tb and p in tb[0] else 0) < sa.get(p, 0) + 1:
-                    why = 'tied party %d is worse off in the larger house' % p
+            ctx.dist['house:tie-at-n:%s' % ('kept' if tb else 'resolved')] += 1
+        why = house_clause(c['n'], ra[1], rb[1])
         if why:
             bad += 1
             ctx.checker_false += 1
             ctx.report(stream, dict(c, kind='house'), '%s | %s' % (ra[1], rb[1]), 'n/a', 'house monotonicity: ' + why)
         elif len(ctx.samples) < 2 and ta:
-            ctx.samples.append(dict(stream=stream, case=c, impl='n: %s ; n+1: %s' % (ra[1], rb[1]), model='theorem C17_house'))
+            ctx.samples.append(dict(stream=stream, case=c, impl='n: %s ; n+1: %s' % (ra[1], rb[1]), model='theorem C17_house_exact'))
     ctx.streams[stream] = dict(cases=len(cases), deviations=bad)
+
+
+def vote_increment(rng, vp):
+    return rng.choice([1, 1, max(1, vp // 10), vp if vp else 7, 10 ** 30, Fraction(1, 3)])
 
 
 def votes_checks(ctx, stream, cases, rng):
@@ -122,7 +174,7 @@ def votes_checks(ctx, stream, cases, rng):
             continue
         p = rng.choice(ids)
         vp = q(dict((k, v) for k, v in c['votes'])[p])
-        inc = rng.choice([1, 1, max(1, vp // 10), vp, 10 ** 30, Fraction(1, 3)])
+        inc = vote_increment(rng, vp)
         v2 = [[k, jq(q(v) + inc) if k == p else v] for k, v in c['votes']]
         n += 1
         ctx.evaluations += 1
@@ -137,13 +189,93 @@ def votes_checks(ctx, stream, cases, rng):
             ctx.nontrivial.add(common.case_hash(case))
         if tb:
             ctx.dist['votes:tie-after'] += 1
-            continue
-        if sb.get(p, 0) < sa.get(p, 0):
+        if vp == 0:
+            ctx.dist['votes:from-zero'] += 1
+        why = votes_clause(p, ra[1], rb[1])
+        if why:
             bad += 1
             ctx.checker_false += 1
-            ctx.report(stream, case, '%s | %s' % (ra[1], rb[1]), 'n/a',
-                       'vote monotonicity: party %d has %d seats, %d after gaining %s votes' % (p, sa.get(p, 0), sb.get(p, 0), inc))
+            ctx.report(stream, case, '%s | %s' % (ra[1], rb[1]), 'n/a', 'vote monotonicity: %s (+%s votes)' % (why, inc))
     ctx.streams[stream] = dict(cases=n, deviations=bad)
+
+
+def votes_exhaustive(ctx, stream, cases):
+    """the exhaustive small domain (<= 3 parties, votes 0..3, n 1..4, five divisors): EVERY party gains one vote"""
+    bad = n = 0
+    for c in cases:
+        ra = common.call_impl(lambda: ha_eval(c), 5)
+        for p, vp in c['votes']:
+            v2 = [[k, v + 1 if k == p else v] for k, v in c['votes']]
+            n += 1
+            ctx.evaluations += 1
+            ctx.dist['stream:' + stream] += 1
+            rb = common.call_impl(lambda: ha_eval(c, votes=v2), 5)
+            if ra[0] != 'ok' or rb[0] != 'ok':
+                continue
+            case = dict(c, kind='votes', party=p, inc=1)
+            if ra[1][1] or rb[1][1]:
+                ctx.nontrivial.add(common.case_hash(case))
+            why = votes_clause(p, ra[1], rb[1])
+            if why:
+                bad += 1
+                ctx.checker_false += 1
+                ctx.report(stream, case, '%s | %s' % (ra[1], rb[1]), 'n/a', 'vote monotonicity: %s (+1 vote)' % why)
+    ctx.streams[stream] = dict(cases=n, deviations=bad)
+
+
+# ---- the perturbed election itself against the model, judged by the generalised clauses (spec=): stream ha-mono-pairs
+def ha_wire_result(wire):
+    """(seats, tie) out of the wire value of c01.impl / the model, or None for an error"""
+    v = common.parse_sx(wire)
+    if v[0] != 0:
+        return None
+    gains, tie = v[1]
+    return {k: s for k, s in gains}, ((sorted(tie[0]), tie[1]) if tie else None)
+
+
+def mono_pairs(rng, cases):
+    """every base case twice: with one more seat, and with more votes for one party; the case is the PERTURBED election and carries
+    what has to be undone to get the base election back"""
+    for c in cases:
+        yield dict(c, n=c['n'] + 1, mono=['house'])
+        ids = [k for k, _ in c['votes']]
+        if ids:
+            p = rng.choice(ids)
+            vp = q(dict((k, v) for k, v in c['votes'])[p])
+            inc = vote_increment(rng, vp)
+            yield dict(c, votes=[[k, jq(q(v) + inc) if k == p else v] for k, v in c['votes']], mono=['votes', p, jq(vp)])
+
+
+def mono_base(c):
+    m = c['mono']
+    base = {k: v for k, v in c.items() if k != 'mono'}
+    if m[0] == 'house':
+        base['n'] = c['n'] - 1
+    else:
+        base['votes'] = [[k, m[2] if k == m[1] else v] for k, v in c['votes']]
+    return base
+
+
+def mono_spec(c, io, mo):
+    """the declarative clauses of C17_house_exact / C17_votes_full on the IMPLEMENTATION's output for the perturbed election (io) and
+    its output for the base election"""
+    rb = ha_wire_result(io)
+    if rb is None:
+        return None
+    base = mono_base(c)
+    r = common.call_impl(lambda: c01.impl(base), 5)
+    ra = ha_wire_result(r[1]) if r[0] == 'ok' else None
+    if ra is None:
+        return None
+    if c['mono'][0] == 'house':
+        why = house_clause(base['n'], ra, rb)
+        return 'house monotonicity: ' + why if why else None
+    why = votes_clause(c['mono'][1], ra, rb)
+    return 'vote monotonicity: ' + why if why else None
+
+
+def mono_nontrivial(c):
+    return bool(c['prev'] or c['caps'] or any(q(v) == 0 for _, v in c['votes']) or c01.nontrivial(c))
 
 
 # ------------------------------------------------------------------ sole-winner monotonicity
@@ -153,7 +285,7 @@ RANKED_RULES = ['plurality', 'borda', 'borda0', 'dowdall', 'geometric', 'modifie
 
 ADDITIVE = {'plurality', 'borda', 'borda0', 'dowdall', 'geometric', 'modified_borda', 'fixed_top', 'sequence'}
 # a longer new ballot with the winner on top is also safe under Oklahoma (coefficients of the later places <= 1/2: C17_oklahoma_added)
-LONG_ADDED = ADDITIVE | {'oklahoma'}
+LONG_ADDED = ADDITIVE | {'oklahoma', 'minimax_margins', 'minimax_pwo'}
 
 
 def evalreg_cands(prof):
@@ -677,6 +809,104 @@ def sole_winner_shared(ctx, stream, count, rng):
     ctx.streams[stream] = dict(cases=n, deviations=bad)
 
 
+# ------------------------------------------------------------------ positional rules: the changed ballot WITH shared ranks
+# (Proofs/PositionalShared_proofs.v: C17_positional_shared / _leave_shared / _leave_pair / _rank_unranked / _added are about Model/Convert.v
+# [img_positional]; unit C13 `convert` kind positional is that model on the wire - stream pos-tie)
+POS_CFGS = [['borda', 1], ['borda', 0], ['dowdall', 0], ['geometric', 2], ['modified', 0], ['fixedtop', 3], ['sequence', [5, 3, 3, 1]]]
+
+
+def pos_evaluate(cfg, prof):
+    import votelib.evaluate.core as core
+    import props.c13 as c13
+    conv = c13.converter(dict(kind='positional', cfg=cfg))
+    votes = {}
+    for b, x in prof:
+        k = pa_py_ballot(b)
+        votes[k] = votes.get(k, 0) + x
+    return common.call_impl(lambda: core.PreConverted(conv, core.Plurality()).evaluate(votes, 1), 10)
+
+
+def positional_moves(b, w, others, rng):
+    """upward moves of w on a ballot with shared ranks: to a higher place / out of a shared rank to a place of its own (shared_moves);
+    an unranked w gets ranked at any place"""
+    if w in rc_flat(b):
+        for b2 in shared_moves(b, w, rng):
+            yield 'move', b2
+    else:
+        for j in range(len(b) + 1):
+            yield 'rank', b[:j] + [w] + b[j:]
+
+
+def positional_case_check(ctx, stream, case):
+    """re-evaluate one recorded change; -> True when the sole winner is lost"""
+    r0 = pos_evaluate(case['cfg'], case['profile'])
+    if r0[0] != 'ok' or sole_winner(r0[1]) != case['winner']:
+        return False
+    if case['what'] == 'added':
+        p2 = case['profile'] + [[case['new_ballot'], 1]]
+    else:
+        p2 = [[b, x - (1 if i == case['ballot'] else 0)] for i, (b, x) in enumerate(case['profile'])]
+        p2 = [bx for bx in p2 if bx[1] > 0] + [[case['new_ballot'], 1]]
+    r1 = pos_evaluate(case['cfg'], p2)
+    if r1[0] == 'ok' and sole_winner(r1[1]) == case['winner']:
+        return False
+    ctx.checker_false += 1
+    ctx.report(stream, case, str(r1[1:]), 'n/a', 'positional %s: sole winner %s no longer the sole winner after %s: %s'
+               % (case['cfg'], cname(case['winner']), ('adding the ballot %s' % case['new_ballot']) if case['what'] == 'added'
+                  else 'the change %s -> %s on one ballot' % (case['profile'][case['ballot']][0], case['new_ballot']), r1[1:]))
+    return True
+
+
+def sole_winner_positional_shared(ctx, stream, count, rng):
+    import props.c13 as c13
+    bad = n = 0
+    ties = []
+    for _ in range(count):
+        m = rng.randint(3, 5)
+        ids = list(range(1, m + 1))
+        prof, seen = [], set()
+        for _ in range(rng.randint(1, 6)):
+            b = gen_pa_ballot(rng, ids, rng.choice([0.2, 0.5]))
+            if not b or pa_py_ballot(b) in seen:
+                continue
+            seen.add(pa_py_ballot(b))
+            prof.append([b, rng.randint(1, 4)])
+        if not prof:
+            continue
+        cfg = rng.choice(POS_CFGS)
+        ctx.evaluations += 1
+        ctx.dist['stream:' + stream] += 1
+        r0 = pos_evaluate(cfg, prof)
+        w = sole_winner(r0[1]) if r0[0] == 'ok' else None
+        if w is None:
+            continue
+        cands = sorted({k for b, _ in prof for k in rc_flat(b)})
+        others = [k for k in cands if k != w]
+        changes = []
+        for bi, (b, _) in enumerate(prof):
+            for what, b2 in positional_moves(b, w, others, rng):
+                if what == 'rank' or n_shared(b) or n_shared(b2):
+                    changes.append((what, bi, b2))
+        if others:
+            for _ in range(2):
+                rest = gen_pa_ballot(rng, others, rng.choice([0.3, 0.6]))
+                changes.append(('added', None, [w] + rest))
+        for what, bi, b2 in changes:
+            n += 1
+            case = dict(kind='sole-positional', what=what, cfg=cfg, profile=prof, ballot=bi, new_ballot=b2, winner=w)
+            ctx.evaluations += 1
+            ctx.nontrivial.add(common.case_hash(case))
+            ctx.dist['positional-shared:%s' % what] += 1
+            if positional_case_check(ctx, stream, case):
+                bad += 1
+            elif rng.random() < 0.06:
+                p2 = rc_replace(prof + [[b2, 1]], len(prof), b2, 1) if what == 'added' else rc_replace(prof, bi, b2, 1)
+                ties.append(dict(kind='positional', cfg=cfg, votes=prof))
+                ties.append(dict(kind='positional', cfg=cfg, votes=p2))
+    ctx.streams[stream] = dict(cases=n, deviations=bad)
+    ctx.differential('pos-tie', ties, c13.model_line, c13.impl, canon=c13.canon, nontrivial=lambda c: True)
+
+
 # ------------------------------------------------------------------ RankedToCondorcetVotes: model tie + the exact effect of ONE moved ballot
 # (Proofs/RaisesBallot_proofs.v: pairwise_move_exact / pairwise_move_cands / copeland_ballot_monotone / minimax_ballot_monotone are
 # about Model/Hybrids.v [pairwise]; unit C05+2 is that model on the wire)
@@ -784,8 +1014,105 @@ def rc_move_check(ctx, stream, case):
     return False
 
 
+def rc_pair_coef(cs, r, a, c):
+    """what one unit of ballot r adds to count(a, c) (unranked_at_bottom=True; cs = the candidates of the profile): a on a higher rank than c,
+    or a ranked and c not ranked on r"""
+    pos = {}
+    for i, it in enumerate(r):
+        for k in (it if isinstance(it, list) else [it]):
+            pos.setdefault(k, []).append(i)
+    n = sum(1 for i in pos.get(a, []) for j in pos.get(c, []) if i < j)
+    if c not in pos and c in cs:
+        n += len(pos.get(a, []))
+    return n
+
+
+def rc_delta_check(ctx, stream, case):
+    """C17_ballot_rank_exact / C17_ballot_added_exact / C17_ballot_bullet_exact on the implementation, and the sole winner where proved.
+    kind rc-rank: candidate w, not on ballot bi, gets ranked at place j on x units of it; kind rc-added: x units of the ballot `new_ballot`
+    (w alone on top) are added.  -> True if it fails"""
+    prof, x, w = case['profile'], case['x'], case['cand']
+    cs = sorted({k for b, _ in prof for k in rc_flat(b)})
+    if case['kind'] == 'rc-rank':
+        b = prof[case['ballot']][0]
+        b2 = b[:case['j']] + [w] + b[case['j']:]
+        p2 = rc_replace(prof, case['ballot'], b2, x)
+        below = rc_flat(b[case['j']:])
+        still = [k for k in cs if k not in rc_flat(b2)]
+        exp = lambda a, c: x * ((1 if a == w else 0) * (below.count(c) + still.count(c)) - below.count(a) * (1 if c == w else 0))     # noqa
+        proved = PAIRWISE_MONO
+    else:
+        b2 = case['new_ballot']
+        p2 = [[bb, wt] for bb, wt in prof]
+        for y in p2:
+            if pa_py_ballot(y[0]) == pa_py_ballot(b2):
+                y[1] += x
+                break
+        else:
+            p2.append([b2, x])
+        exp = lambda a, c: x * rc_pair_coef(cs, b2, a, c)     # noqa
+        proved = PAIRWISE_MONO if len(b2) == 1 else ['minimax_margins', 'minimax_pwo']
+    r0 = common.call_impl(lambda: rc_convert(prof), 10)
+    r1 = common.call_impl(lambda: rc_convert(p2), 10)
+    if r0[0] != 'ok' or r1[0] != 'ok':
+        if r0[0] != r1[0]:
+            ctx.checker_false += 1
+            ctx.report(stream, case, str(r1[1:]), str(r0[1:]), 'RankedToCondorcetVotes: one of the two conversions failed: %s / %s' % (r0, r1))
+            return True
+        return False
+    d0, d1 = r0[1], r1[1]
+    why = None
+    for a in cs:
+        for c in cs:
+            if a != c and d1.get((a, c), 0) != d0.get((a, c), 0) + exp(a, c):
+                why = 'count(%s, %s) is %s after %s, expected %s + %s' % (cname(a), cname(c), d1.get((a, c), 0),
+                      ('%s was ranked on ballot %s -> %s' % (cname(w), prof[case['ballot']][0], b2)) if case['kind'] == 'rc-rank' else 'the ballot %s was added' % b2,
+                      d0.get((a, c), 0), exp(a, c))
+                break
+        if why:
+            break
+    if not why and d0 and {k for pr in d0 for k in pr} != {k for pr in d1 for k in pr}:
+        why = 'the candidates of the pairwise dictionary changed: %s -> %s' % (sorted({k for pr in d0 for k in pr}), sorted({k for pr in d1 for k in pr}))
+    if not why and case.get('rule') in proved:
+        import votelib.evaluate.condorcet as cd
+        ev = cd.EVALUATORS[case['rule']]
+        py = lambda d: {(cname(a), cname(c)): n for (a, c), n in d.items()}     # noqa
+        e0 = common.call_impl(lambda: ev.evaluate(py(d0), 1), 10)
+        if e0[0] == 'ok' and sole_winner(e0[1]) == w:
+            ctx.dist['%s:sole-winner' % case['kind']] += 1
+            e1 = common.call_impl(lambda: ev.evaluate(py(d1), 1), 10)
+            if not (e1[0] == 'ok' and sole_winner(e1[1]) == w):
+                why = '%s: sole winner %s no longer the sole winner (%s): %s' % (case['rule'], cname(w), case['kind'], e1[1:])
+    if why:
+        ctx.checker_false += 1
+        ctx.report(stream, case, str(sorted(d1.items())), str(sorted(d0.items())), why)
+        return True
+    return False
+
+
+def rc_delta_cases(rng, prof, w0, rule):
+    """for one profile: the sole winner (or, when there is none, any candidate) gets ranked on ballots that leave it out; ballots with it on top are added"""
+    cs = sorted({k for b, _ in prof for k in rc_flat(b)})
+    if not cs:
+        return
+    w = w0 if w0 is not None else rng.choice(cs)
+    outs = [bi for bi, (b, wt) in enumerate(prof) if w not in rc_flat(b) and wt >= 1]
+    rng.shuffle(outs)
+    for bi in outs[:2]:
+        b, wt = prof[bi]
+        for x in {1, wt}:
+            yield dict(kind='rc-rank', profile=prof, ballot=bi, j=rng.randint(0, len(b)), x=x, cand=w, rule=rule)
+    others = [k for k in cs if k != w]
+    yield dict(kind='rc-added', profile=prof, new_ballot=[w], x=rng.randint(1, 3), cand=w, rule=rule)
+    if others:
+        rest = gen_pa_ballot(rng, others, rng.choice([0, 0.3]))
+        if rest:
+            yield dict(kind='rc-added', profile=prof, new_ballot=[w] + rest, x=rng.randint(1, 3), cand=w, rule=rule)
+
+
 def rc_streams(ctx, count, rng):
     ties, n, bad = [], 0, 0
+    nd = badd = 0
     for _ in range(count):
         prof = gen_rc_profile(rng)
         if not prof:
@@ -804,6 +1131,15 @@ def rc_streams(ctx, count, rng):
         moves += [(bi, i, j, m) for bi, (b, _) in enumerate(prof) for i, it in enumerate(b) if isinstance(it, list) and len(it) > 1
                   for m in it if (w0 is None or m == w0) for j in range(i + 1)]
         rng.shuffle(moves)
+        for case in rc_delta_cases(rng, prof, w0, rule):
+            nd += 1
+            ctx.evaluations += 1
+            ctx.dist['stream:rc-rank-added-exact'] += 1
+            ctx.nontrivial.add(common.case_hash(case))
+            if case['kind'] == 'rc-added' and len(case['new_ballot']) > 1:
+                ctx.dist['rc-added:longer-ballot'] += 1
+            if rc_delta_check(ctx, 'rc-rank-added-exact', case):
+                badd += 1
         for bi, i, j, member in moves[:4]:
             wt = prof[bi][1]
             for x in {1, wt} if wt >= 1 else {0}:
@@ -823,6 +1159,7 @@ def rc_streams(ctx, count, rng):
                     ties.append(dict(unit='hybrid', method='to_condorcet', n=1,
                                      profile=rc_replace(prof, bi, b[:j] + [b[i]] + b[j:i] + b[i + 1:], x)))
     ctx.streams['rc-move-exact'] = dict(cases=n, deviations=bad)
+    ctx.streams['rc-rank-added-exact'] = dict(cases=nd, deviations=badd)
     ctx.differential('rc-tie', ties, c05.hyb_line, c05.hyb_impl, canon=c05.hyb_canon, nontrivial=lambda c: True)
 
 
@@ -889,6 +1226,76 @@ def scorer_stream(ctx, rng):
     ctx.streams['scorer-nonincreasing'] = dict(cases=n, deviations=bad)
 
 
+def lr_paradox(ctx, stream, c):
+    """largest remainder is NOT among the rules the property claims monotone; the kernel-checked witnesses C17_lr_house_refuted /
+    C17_lr_votes_droop_refuted (Props/C17.v) are about the model of LargestRemainder.evaluate: both elections of a witness are
+    compared with that model here, and the loss of the seat is re-observed on the implementation (counted, never a violation)"""
+    two = [dict(unit='largest_remainder', quota=c['quota'], ae=True, pol=1, votes=c['votes'], n=c['n'], prev=[], caps=[]),
+           dict(unit='largest_remainder', quota=c['quota'], ae=True, pol=1, votes=c['votes2'], n=c['n2'], prev=[], caps=[])]
+    ctx.differential(stream, two, c02.model_line, c02.impl, canon=c02.canon, nontrivial=lambda c: True)
+    got = []
+    for e in two:
+        r = common.call_impl(lambda: c02.impl(e), 5)
+        v = common.parse_sx(r[1]) if r[0] == 'ok' else [1]
+        got.append(dict((k, s) for k, s in v[1] if not isinstance(k, list)).get(c['party'], 0) if v[0] == 0 else None)
+    ctx.dist['lr-paradox:%s:%s' % (c['what'], 'reproduced' if got == c['seats'] else 'gone')] += 1
+
+
+# ---- largest remainder, exact Hare quota: vote monotonicity (C17_lr_hare_votes; not claimed by the property, proved over the model of C02)
+def lr_wire_result(wire):
+    v = common.parse_sx(wire)
+    if v[0] != 0:
+        return None
+    sure = {k: s for k, s in v[1] if not isinstance(k, list)}
+    tied = {x for k, s in v[1] if isinstance(k, list) for x in k}
+    return sure, tied
+
+
+def lr_hare_case(votes, n, **kw):
+    return dict(unit='largest_remainder', quota=[1], ae=True, pol=1, votes=votes, n=n, prev=[], caps=[], **kw)
+
+
+def lr_hare_pairs(rng, count):
+    for _ in range(count):
+        m = rng.randint(1, 6)
+        ids = list(range(1, m + 1))
+        rng.shuffle(ids)
+        style = rng.choice(['small', 'small', 'mid', 'frac', 'equal'])
+        votes = []
+        for k in ids:
+            v = (rng.randint(0, 6) if style == 'small' else rng.randint(0, 1000) if style == 'mid' else rng.choice([0, 12, 12, 24, 36]) if style == 'equal'
+                 else Fraction(rng.randint(0, 40), rng.randint(1, 3)))
+            votes.append([k, jq(v)])
+        if sum(q(v) for _, v in votes) == 0:
+            continue
+        n = rng.randint(1, rng.choice([3, 8, 20]))
+        p = rng.choice(ids)
+        vp = q(dict((k, v) for k, v in votes)[p])
+        inc = rng.choice([1, 1, 2, max(1, vp // 10), vp if vp else 5, Fraction(1, 3)])
+        v2 = [[k, jq(q(v) + inc) if k == p else v] for k, v in votes]
+        if rng.random() < 0.5:
+            rng.shuffle(v2)                      # the new dictionary in another insertion order
+        yield lr_hare_case(v2, n, mono=['votes', p, jq(vp)], base_votes=votes)
+
+
+def lr_hare_spec(c, io, mo):
+    rb = lr_wire_result(io)
+    if rb is None:
+        return 'LargestRemainder(hare) failed on a non-empty profile: %s' % io
+    base = lr_hare_case(c['base_votes'], c['n'])
+    r = common.call_impl(lambda: c02.impl(base), 5)
+    ra = lr_wire_result(r[1]) if r[0] == 'ok' else None
+    if ra is None:
+        return 'LargestRemainder(hare) failed on the base profile: %s' % (r[1:],)
+    p = c['mono'][1]
+    sa, sb = ra[0].get(p, 0), rb[0].get(p, 0)
+    if sb < sa:
+        return 'largest remainder (Hare): party %d holds %d seats for certain, %d after gaining votes' % (p, sa, sb)
+    if sb + (1 if p in rb[1] else 0) < sa + (1 if p in ra[1] else 0):
+        return 'largest remainder (Hare): party %d can reach %d seats (tie included), only %d after gaining votes' % (p, sa + (p in ra[1]), sb + (p in rb[1]))
+    return None
+
+
 def corpus():
     import os, json, glob
     for p in sorted(glob.glob(os.path.join(common.VERIF, 'corpus', ID, '*.json'))):
@@ -906,9 +1313,10 @@ def run_corpus_case(ctx, c, stream='corpus'):
         ra = common.call_impl(lambda: ha_eval(c), 5)
         rb = common.call_impl(lambda: ha_eval(c, votes=v2), 5)
         ctx.evaluations += 1
-        if ra[0] == 'ok' and rb[0] == 'ok' and not rb[1][1] and rb[1][0].get(p, 0) < ra[1][0].get(p, 0):
+        why = votes_clause(p, ra[1], rb[1]) if ra[0] == 'ok' and rb[0] == 'ok' else None
+        if why:
             ctx.checker_false += 1
-            ctx.report(stream, c, '%s | %s' % (ra[1], rb[1]), 'n/a', 'vote monotonicity: party %d loses seats after gaining votes' % p)
+            ctx.report(stream, c, '%s | %s' % (ra[1], rb[1]), 'n/a', 'vote monotonicity: ' + why)
     elif k == 'sole-added':
         ctx.evaluations += 1
         ev = ranked_evaluator(c['rule'])
@@ -935,6 +1343,12 @@ def run_corpus_case(ctx, c, stream='corpus'):
     elif k == 'rc-move':
         ctx.evaluations += 1
         rc_move_check(ctx, stream, c)
+    elif k in ('rc-rank', 'rc-added'):
+        ctx.evaluations += 1
+        rc_delta_check(ctx, stream, c)
+    elif k == 'sole-positional':
+        ctx.evaluations += 1
+        positional_case_check(ctx, stream, c)
     elif k == 'scorer':
         ctx.evaluations += 1
         scorer_check(ctx, stream, c)
@@ -942,6 +1356,12 @@ def run_corpus_case(ctx, c, stream='corpus'):
         ctx.differential(stream, [c], c05.hyb_line, c05.hyb_impl, canon=c05.hyb_canon, nontrivial=lambda c: True)
     elif c.get('unit') == 'preference_addition':
         ctx.differential(stream, [c], pa_model_line, pa_impl, canon=pa_canon, nontrivial=pa_nontrivial, spec=pa_spec, known_class=pa_diff_known)
+    elif k == 'lr-paradox':
+        lr_paradox(ctx, stream, c)
+    elif c.get('unit') == 'largest_remainder' and c.get('mono'):
+        ctx.differential(stream, [c], c02.model_line, c02.impl, canon=c02.canon, nontrivial=lambda c: True, spec=lr_hare_spec)
+    elif c.get('unit') == 'highest_averages' and c.get('mono'):
+        ctx.differential(stream, [c], c01.model_line, c01.impl, canon=c01.canon, nontrivial=mono_nontrivial, spec=mono_spec)
     elif c.get('unit') == 'highest_averages':
         ctx.differential(stream, [c], c01.model_line, c01.impl, canon=c01.canon, nontrivial=c01.nontrivial)
 
@@ -953,6 +1373,11 @@ def explore(ctx, widen=1):
     kw = dict(canon=c01.canon, nontrivial=c01.nontrivial)
     ctx.differential('ha-tie', itertools.chain(c01.gen_random(rng, ctx.n(500, 6000) * widen), c01.gen_ties(rng, ctx.n(200, 2000) * widen),
                                                c01.gen_zero_caps(rng, ctx.n(100, 1000))), c01.model_line, c01.impl, **kw)
+    ctx.differential('ha-mono-pairs', mono_pairs(rng, itertools.chain(c01.gen_random(rng, ctx.n(700, 8000) * widen), c01.gen_ties(rng, ctx.n(500, 6000) * widen),
+                                                                     c01.gen_zero_caps(rng, ctx.n(300, 3000) * widen))),
+                     c01.model_line, c01.impl, canon=c01.canon, nontrivial=mono_nontrivial, spec=mono_spec)
+    ctx.differential('lr-hare-votes', lr_hare_pairs(rng, ctx.n(1500, 20000) * widen), c02.model_line, c02.impl, canon=c02.canon,
+                     nontrivial=lambda c: True, spec=lr_hare_spec)
     pex = list(gen_pa_exhaustive())
     ctx.differential('pa-exhaustive-small', pex if ctx.tier != 'quick' else pex[::3], pa_model_line, pa_impl, canon=pa_canon,
                      nontrivial=pa_nontrivial, spec=pa_spec, known_class=pa_diff_known)
@@ -966,10 +1391,13 @@ def explore(ctx, widen=1):
     house_checks(ctx, 'house-exhaustive-small', ex)
     house_checks(ctx, 'house-random', itertools.chain(c01.gen_random(rng, ctx.n(1500, 20000) * widen), c01.gen_ties(rng, ctx.n(600, 8000) * widen),
                                                       c01.gen_zero_caps(rng, ctx.n(300, 3000) * widen)))
-    votes_checks(ctx, 'votes-random', itertools.chain(c01.gen_random(rng, ctx.n(1500, 20000) * widen), c01.gen_ties(rng, ctx.n(600, 8000) * widen)), rng)
+    votes_checks(ctx, 'votes-random', itertools.chain(c01.gen_random(rng, ctx.n(1500, 20000) * widen), c01.gen_ties(rng, ctx.n(600, 8000) * widen),
+                                                      c01.gen_zero_caps(rng, ctx.n(300, 3000) * widen)), rng)
+    votes_exhaustive(ctx, 'votes-exhaustive-small', ex)
     sole_winner_ranked(ctx, 'sole-winner-ranked', ctx.n(8000, 60000) * widen, rng)
     sole_winner_ranked(ctx, 'sole-winner-beatpath', ctx.n(3000, 20000) * widen, rng, beatpath=True)
     sole_winner_shared(ctx, 'sole-winner-shared-ranks', ctx.n(2500, 30000) * widen, rng)
+    sole_winner_positional_shared(ctx, 'sole-winner-positional-shared', ctx.n(1500, 20000) * widen, rng)
     sole_winner_cardinal(ctx, 'sole-winner-cardinal', ctx.n(1500, 15000) * widen, rng)
     rc_streams(ctx, ctx.n(2500, 30000) * widen, rng)
     scorer_stream(ctx, rng)
